@@ -5,7 +5,9 @@ proof leg            lean/PlinioVerif/Props/C11.lean (nas_net_partition, train_X
                      partial_update_preserves_others, ...)
 correspondence leg   real PIT (1-D net with a strided Conv1d = frozen beta/gamma, residual add = shared
                      features masker, output-tied Linear = frozen alpha; 2-D net with an input-tied
-                     residual), MPS (per-layer and per-channel, residual add = shared quantizers) and
+                     residual), MPS (2-D per-layer and per-channel, 1-D Conv1d net; residual add = shared
+                     quantizers; every out / weight / in quantizer of every Identity, Conv1d, Conv2d, Add
+                     and Linear layer is observed) and
                      SuperNet (softmax and Gumbel combiners) models vs `Drivers/C11.lean`: after every
                      call the `requires_grad` vector of all parameters and frozen masks, membership in
                      named_nas_parameters / named_net_parameters, sampler / temperature / hard of every
@@ -15,8 +17,11 @@ correspondence leg   real PIT (1-D net with a strided Conv1d = frozen beta/gamma
                      every call), plus random walks.
 oracle leg           the property's own clauses on the real objects after every call: partition (each
                      parameter exactly once), train_X = exactly the named group, frozen masks never
-                     trainable / never with a non-zero gradient, a single-option update leaves the
-                     other options of every quantizer as they were.
+                     trainable / never with a non-zero gradient, a single-option update sets the option
+                     it names and leaves the other options of every quantizer as they were (a defect
+                     confined to some quantizers is keyed by the layer type and role through which they
+                     are updated), and every sequence of the alphabet can be completed (forward+backward
+                     does not raise).
 """
 import json
 
